@@ -172,7 +172,13 @@ func c03Handback(e *Env, s *Sched, rule string, reentry bool) {
 	descend := func(g *ssa.Function) bool { return s.inWorker(g) }
 	// the way on from an instruction: the rest of its function and, when that is a
 	// helper of the worker, what follows the helper's call, up to the worker itself
+	// what is known in the caller about the answer of the helper the search has just
+	// left: when every return the search can reach in a boolean helper hands back the same
+	// constant, the caller's test of the call has that outcome (`if r.execute(node) { return }`
+	// with execute answering true exactly where it has reported the node)
+	var learned []ir.NLit
 	onward := func(start ssa.Instruction, q ir.PathQuery) ssa.Instruction {
+		learned = nil
 		cur := start
 		for d := 0; d < 6; d++ {
 			if bad, _ := ir.Bypass(cur, nil, q); bad != nil {
@@ -185,6 +191,33 @@ func c03Handback(e *Env, s *Sched, rule string, reentry bool) {
 			us := ir.UniqueSite(f)
 			if us == nil {
 				return nil
+			}
+			if uc, isCall := us.(*ssa.Call); isCall && f.Signature.Results().Len() == 1 && f.Signature.Results().At(0).Type().String() == "bool" {
+				var vals []bool
+				allConst := true
+				q2 := q
+				q2.Bad = func(in ssa.Instruction) bool {
+					if rt, isR := in.(*ssa.Return); isR {
+						for _, v := range RetVals(rt, 0) {
+							if cb, isC := ir.ConstBool(ir.Resolve(v)); isC {
+								vals = append(vals, cb)
+							} else {
+								allConst = false
+							}
+						}
+					}
+					return false
+				}
+				ir.Bypass(cur, nil, q2)
+				same := allConst && len(vals) > 0
+				for _, b := range vals {
+					if b != vals[0] {
+						same = false
+					}
+				}
+				if same {
+					learned = append(learned, ir.NLit{Kind: "val", V: uc, Pol: vals[0]})
+				}
 			}
 			cur = us
 		}
@@ -255,7 +288,7 @@ func c03Handback(e *Env, s *Sched, rule string, reentry bool) {
 		known := e.DCS(rs.Site)
 		bad := onward(rs.Site, ir.PathQuery{
 			SkipEdge: func(from *ssa.BasicBlock, idx int) bool {
-				return doneNil(from, idx) || backEdge(from, idx) || e.Contradicts(known, from, idx) || (from.Parent() != rs.Site.Parent() && infeasibleAfterRetry(from, idx))
+				return doneNil(from, idx) || backEdge(from, idx) || e.Contradicts(known, from, idx) || (len(learned) > 0 && e.Contradicts(learned, from, idx)) || (from.Parent() != rs.Site.Parent() && infeasibleAfterRetry(from, idx))
 			},
 			Descend: descend,
 			Bad:     isStatusStore})
@@ -458,9 +491,46 @@ func c03DryGuards(e *Env, s *Sched) {
 			targets[ir.FuncName(nr.Teardown)] = true
 		}
 	}
-	isDry := func(v ssa.Value) bool {
-		p, ok := e.C.PathOf(v)
-		return ok && p.Dotted() == e.schedFields().Dry && strings.HasSuffix(ir.NamedType(p.Root.Type()), ".Scheduler")
+	depthDry := 0
+	var isDry func(v ssa.Value) bool
+	isDry = func(v ssa.Value) bool {
+		// the scheduler's dry flag, wherever the scheduler is reached from (`sc.dry`, `w.sc.dry`)
+		var base ssa.Value
+		field := -1
+		switch x := ir.Resolve(v).(type) {
+		case *ssa.UnOp:
+			if fa, isFA := x.X.(*ssa.FieldAddr); isFA && x.Op == token.MUL {
+				base, field = fa.X, fa.Field
+			}
+		case *ssa.Field:
+			base, field = x.X, x.Field
+		}
+		if base != nil && ir.FieldNameOf(base.Type(), field) == e.schedFields().Dry && strings.HasSuffix(ir.NamedType(base.Type()), ".Scheduler") {
+			return true
+		}
+		if p, ok := e.C.PathOf(v); ok && p.Dotted() == e.schedFields().Dry && strings.HasSuffix(ir.NamedType(p.Root.Type()), ".Scheduler") {
+			return true
+		}
+		// the flag kept in a small helper object (`stepRunner{dry: cfg.Dry, …}`,
+		// `runner{dry: sc.dry}`): a field of an unexported struct of the package into which
+		// only the configuration's Dry or the scheduler's flag is ever stored
+		if base != nil && depthDry < 2 {
+			if vals := e.helperObjectFields(base.Type(), field); len(vals) > 0 {
+				depthDry++
+				all := true
+				for _, sv := range vals {
+					if pp, okp := e.C.PathOf(sv); okp && pp.Suffix("Dry") && strings.HasSuffix(ir.NamedType(pp.Root.Type()), ".Config") {
+						continue
+					}
+					if !isDry(sv) {
+						all = false
+					}
+				}
+				depthDry--
+				return all
+			}
+		}
+		return false
 	}
 	for _, f := range e.RepoFuncsSorted() {
 		if rootFn(f).Package() != sp {
